@@ -761,6 +761,20 @@ def run_property(modname, tier, seed, replay=None, n_override=None):
             say("VIOLATION property=%s replay=%s no-failing-input-found" % (pid, path))
             violations += 1
 
+    # ---- 6b. thorough tier: independent re-check of the compiled theorems (coqchk) and its axiom summary
+    coqchk = None
+    if tier == "thorough" and proofs["ok"] and not replay:
+        modname_coq = "CSS." + plugin.COQ_PROPS[:-2].replace("/", ".")
+        with Lock("coq"):
+            rc, out = sh("timeout 1500 coqchk -silent -o -Q theories CSS %s" % modname_coq, cwd=COQ, timeout=1530)
+        summary = out[out.find("CONTEXT SUMMARY"):] if "CONTEXT SUMMARY" in out else out[-1500:]
+        coqchk = {"ok": rc == 0, "summary": " ".join(summary.split())[:1500]}
+        say("[%s] coqchk: %s" % (pid, "ok" if rc == 0 else "FAILED"))
+        if rc != 0:
+            path = write_replay(pid, "broken-theorem", {"what": "coqchk rejects " + modname_coq, "log": out[-3000:]})
+            say("VIOLATION property=%s replay=%s no-failing-input-found" % (pid, path))
+            violations += 1
+
     # ---- 7. evidence
     samples = []
     for i in list(range(min(2, len(cases)))) + ([len(cases) - 1] if len(cases) > 2 else []):
@@ -810,6 +824,7 @@ def run_property(modname, tier, seed, replay=None, n_override=None):
             "distribution": dist,
             "extra_checks": [{"name": n_, "ok": bool(o), "detail": str(d)[:600]} for n_, o, d in extra],
             "translator": gen_status.get("log", "")[-400:] if getattr(plugin, "GEN_TARGETS", None) else "not used by this property",
+            "coqchk": coqchk if coqchk is not None else "run in the thorough tier only",
         },
         "assumptions": list(getattr(plugin, "ASSUMPTIONS", [])),
         "wall_s": round(time.time() - t0, 2),
